@@ -256,6 +256,17 @@ def check_clear_state(program, rep):
         if isinstance(n, (ast.Assign, ast.AnnAssign)):
             for t in (n.targets if isinstance(n, ast.Assign) else [n.target]):
                 cleared.add(norm(t))
+    # re-running the dispatcher's own constructor rebinds every container it
+    # makes (the old ones, with what they held, become garbage)
+    for n in ast.walk(cl.node):
+        if isinstance(n, ast.Call) and isinstance(n.func, ast.Attribute) \
+                and n.func.attr == '__init__' and (
+                    (dotted(n.func.value) == disp.name and len(n.args) == 1
+                     and norm(n.args[0]) == 'self')
+                    or (isinstance(n.func.value, ast.Call) and dotted(
+                        n.func.value.func) == 'super' and not n.args)
+                    or (dotted(n.func.value) == 'self' and not n.args)):
+            cleared |= set(made)
     missing = [m for m in made if m not in cleared]
     rep.check(not missing and bool(made), 'C10.clear-state', cl.where,
               ', '.join(made) or 'containers',
